@@ -19,7 +19,7 @@ CHECKS = {
             "The format walkers are harness code (cross-checked against liblzma in C03). Dictionaries above 64 MiB are not instantiated."),
     "C03": ("exploration", "differential property-based testing against liblzma (in-process), both directions",
             "DESIGN.md 3/C03",
-            "Generated search: every stream the crate writes (narrowed to what the reference can decode at all) must be accepted, fully consumed and decoded to the input by liblzma; every stream liblzma writes (presets, custom options with all match finders, filter chains, check types, multi-block via full flush and via the MT encoder with size fields, .lzma, raw LZMA2+filters, wrapped LZIP) must decode with the crate to the input.",
+            "Generated search: every stream the crate writes (narrowed to what the reference can decode at all) must be accepted, fully consumed and decoded to the input by liblzma; every stream liblzma writes (presets, custom options with all match finders, filter chains, check types, multi-block via full flush and via the MT encoder with size fields, .lzma, raw LZMA2+filters, wrapped LZIP) must decode with the crate to the input; raw LZMA1 / LZMA2 with a preset dictionary related to the input are exchanged in both directions.",
             "liblzma 5.8 static is the trusted reference; no independent LZIP encoder exists in the sandbox (wrapped LZMA1 streams are used); the narrowing of ours->ref is listed in the evidence assumptions."),
     "C12": ("exploration", "model-based property testing: generated sequences of streams/members and paddings, liblzma (LZMA_CONCATENATED) and the concatenation of contents as reference model",
             "DESIGN.md 3/C12",
